@@ -22,7 +22,7 @@ theorem inv_stepCreate (s s' : St) (u : UnitId) (p : PoolId) (h : Inv s) (hs : s
 
 theorem inv_stepPush (s s' : St) (p : PoolId) (u : UnitId) (h : Inv s) (hs : stepPush s p u = some s') : Inv s' := by
   unfold stepPush at hs
-  cases hl : s.loc u <;> simp only [hl] at hs <;> (repeat' (split at hs)) <;> close_tac h hs
+  cases hl : s.loc u <;> simp only [hl, isCb] at hs <;> (repeat' (split at hs)) <;> close_tac h hs
 
 theorem inv_stepPop (s s' : St) (e : EsId) (p : PoolId) (u : UnitId) (h : Inv s) (hs : stepPop s e p u = some s') : Inv s' := by
   unfold stepPop at hs
